@@ -660,8 +660,8 @@ func Spec() *mon.Spec {
 		},
 		ChildSetup: childSetup,
 		Phases: []mon.Phase{
-			{Name: "programs", Quick: scale(1600), Thorough: scale(40000), Run: runProgram, Timeout: 90 * time.Second},
-			{Name: "repeat", Quick: scale(24), Thorough: scale(400), Run: runRepeat, Timeout: 120 * time.Second},
+			{Name: "programs", Quick: scale(1600), Thorough: scale(16000), Run: runProgram, Timeout: 90 * time.Second},
+			{Name: "repeat", Quick: scale(24), Thorough: scale(200), Run: runRepeat, Timeout: 120 * time.Second},
 		},
 		Floors: map[string]int{
 			"distinct_nontrivial": 500, "families": 15, "evaluations": 3000,
